@@ -146,12 +146,14 @@ func (ec *EphemeralContractor) LockV2Contract(contractID types.FileContractID) (
 	if ec.locks[contractID] {
 		return rhp4.RevisionState{}, nil, errors.New("contract already locked")
 	}
-	ec.locks[contractID] = true
 
 	rev, ok := ec.contracts[contractID]
 	if !ok {
+		// do not take the lock: there is no unlock function to release it, and
+		// the ID may later belong to a contract (e.g. the renewal of a known one)
 		return rhp4.RevisionState{}, nil, errors.New("contract not found")
 	}
+	ec.locks[contractID] = true
 
 	_, renewed := ec.contracts[contractID.V2RenewalID()]
 
